@@ -8,7 +8,7 @@ Open Scope Z_scope.
 
 (* Every history (any length, failing operations included) over
    {construction of the seasonal scrambling method and of the signal candidates (both read
-   the data sets), background generation by each method, signal generation, merge, the four
+   the data sets), evaluation (which writes the global-fit-parameter data fields into the trial events), background generation by each method, signal generation, merge, the four
    stages of initialize_trial on the generated events, evaluate, unblind (copy of exp), drop} started with no trial in flight leaves every
    buffer and every table object of the initial store - in particular all of exp / mc -
    exactly as it was, and the data sets still point to the same objects. *)
@@ -230,6 +230,24 @@ Proof.
   exact (mc_generated_disjoint_from_cache nB nT w i cfgf keepmc presel idx m (conj G (conj R1 (conj R2 (conj R3 R4))))).
 Qed.
 Print Assumptions C07_mc_generated_disjoint_from_cache.
+
+(* "unblinding after any number of trials sees the original data": the copy that unblind hands to
+   initialize_trial (and the copy the experimental-data background method scrambles) of a consistent table - every
+   column exists and has the table's length - has exactly the value view of the source: field names in order, column
+   contents (row order), length; together with C07_preserved_views (exp unchanged by any history) the unblinded
+   trial starts from the original data *)
+Theorem C07_copy_content : forall t s x,
+  nth_error (st s) t = Some x ->
+  (forall p, In p (tf x) -> exists v, nth_error (sb s) (snd p) = Some v /\ zlen v = tlen x) ->
+  (tf x = [] -> tlen x = 0) ->
+  exists t', snd (t_copy t None s) = Ok t' /\
+             view (fst (t_copy t None s)) t' = view s t /\ (length (st s) <= t')%nat.
+Proof. exact copy_content. Qed.
+Print Assumptions C07_copy_content.
+
+(* the statements of the generators that decide copy-vs-alias are the modelled ones (kernel pins) *)
+Example C07_copy_statements_pinned : copy_statements_pinned = true /\ storage_shapes_pinned = true.
+Proof. split; reflexivity. Qed.
 
 (* merge / injection by append: afterwards every column of the events table is a new array, so the merged events
    alias neither the signal table, nor a cache, nor the data sets *)
